@@ -206,7 +206,8 @@ fn compare(sutr: &SutResult, calls: &[AskRec], touched: bool, reference: &Outcom
 
 /// Ambient configuration B: an option that cannot matter for this request is switched the other way — S3 mode
 /// when the path canonicalises identically in both modes, form folding when no Content-Type mentions a form.
-/// (The reference is given the same configuration, so the comparison stays exact in any case.)
+/// (The reference is given the same configuration, so the comparison stays exact in any case.) Origin-form request
+/// targets are also rewritten in absolute form, and unsigned bystander headers are added.
 pub fn flip_noop_options(case: &Case) -> Case {
     let mut c = case.clone();
     if let Ok(w) = case.wire.as_received() {
@@ -232,6 +233,22 @@ pub fn flip_noop_options(case: &Case) -> Case {
             ("X-Forwarded-Port", b"80"),
             ("X-HTTP-Method-Override", b"DELETE"),
         ];
+        // request target in absolute form: the authority of the target is not an input of the signature (the Host
+        // header is); for a third of the requests it repeats the first Host value, for a third it names another host
+        let hsel = crate::core::h64(&(&case.wire.uri, case.wire.headers.len(), case.wire.body.len(), "target"));
+        if case.wire.uri.starts_with('/') && hsel % 3 != 2 {
+            let authority = if hsel % 3 == 0 {
+                w.headers.iter().find(|(n, _)| n == "host").map(|(_, v)| String::from_utf8_lossy(v).trim().to_string())
+            } else {
+                Some("other-authority.example.net:8080".to_string())
+            };
+            if let Some(a) = authority {
+                let abs = format!("http://{}{}", a, case.wire.uri);
+                if !a.is_empty() && abs.parse::<http::Uri>().map(|u| u.path() == w.path && u.query().map(|q| q.to_string()) == w.query).unwrap_or(false) {
+                    c.wire.uri = abs;
+                }
+            }
+        }
         let front = crate::core::h64(&(&case.wire.uri, case.wire.headers.len(), case.wire.body.len())) % 2 == 0;
         let mut pos = 0;
         for (n, v) in bystanders {
